@@ -16,10 +16,13 @@ META = {
               'points and execute_* functions. One query per yield point (B exactly there, all inputs symbolic) plus one query for all later points '
               'and "B after A": together every schedule of the two calls with at most two context switches. Both outputs must equal the '
               'sequential references bit for bit. quick: entry-point pairs that use the same scratch buffer; thorough: all 9 pairs. '
+              'b2. thread life cycle: the first FFT-using logical thread ends (the thread_local destructors the compiler registered with '
+              '__cxa_thread_atexit run), another thread evaluates and ends: pointer checks, leak check, same output; for nayuki also with the real '
+              'portable transform kernel (memory safety and leaks only). '
               'c/e. per-call temporaries and no use of the global generator by evaluation are decided under C16 (every temporary allocated by a '
               'call is freed by it) and C15 (inputs and generator untouched).',
     'outside': 'schedules with more than two context switches, more than two threads, true hardware interleavings of individual instructions of '
-               'both calls, thread creation/destruction cycles (the per-thread constructor is encoded, the destructor at thread exit is C16), '
+               'both calls, repeated creation of threads on a reused thread-local slot, '
                'the fftw back-end (library not present in this image), the hand-written assembly kernels (replaced by an uninterpreted function of '
                'their whole buffer; they use no memory besides tables and buffer by inspection only), 1024-point processors, whole gates or a '
                'whole bootstrapping on two threads (their thread-relevant state is exactly the processor and the per-call temporaries).',
@@ -66,11 +69,11 @@ def queries(tier, seed):
         tag = kw.pop('tag', '')
         if backend == 'spqlios':
             d.update(PN=16, PROC=1)
-            return Query('C06.avx2.h_two_threads.spqlios.%s|%s[N=16,site=%d..%d]%s' % (OPS[a], OPS[b], lo, hi - 1, tag), 'FFTP.cpp', 'h_two_threads', d,
+            return Query('C06.avx2.h_two_threads.spqlios.%s|%s[N=16,site=%s]%s' % (OPS[a], OPS[b], lo if hi == lo + 1 else '%d..' % lo, tag), 'FFTP.cpp', 'h_two_threads', d,
                          libs=SPQLIOS, lowering='avx2', libsubst={'fft_processor_spqlios.cpp': [(r'(fftp1024\s*\()\s*1024\s*(\)\s*;)', r'\g<1>16\g<2>')]}, stubs={'fft': 'stub_fft', 'ifft': 'stub_ifft'}, unwind=140,
                          backends=SAT2, cap=900, cflags=['-I' + FFTDIR + '/spqlios'], tls_slots=2, yield_in=YIELD, validate=False, **kw)
         d.update(PN=4, PROC=0)
-        return Query('C06.h_two_threads.nayuki.%s|%s[N=4,site=%d..%d]%s' % (OPS[a], OPS[b], lo, hi - 1, tag), 'FFTP.cpp', 'h_two_threads', d,
+        return Query('C06.h_two_threads.nayuki.%s|%s[N=4,site=%s]%s' % (OPS[a], OPS[b], lo if hi == lo + 1 else '%d..' % lo, tag), 'FFTP.cpp', 'h_two_threads', d,
                      libs=NAYUKI, lowering='scalar-ndebug', libsubst={'fft_processor_nayuki.cpp': [(r'(fp1024_nayuki\s*\()\s*1024\s*(\)\s*;)', r'\g<1>4\g<2>')]}, stubs=NSTUBS, unwind=24, backends=SAT2, cap=900, cflags=inc,
                      tls_slots=2, yield_in=YIELD, validate=False, **kw)
 
@@ -80,6 +83,26 @@ def queries(tier, seed):
             for lo in range(k):
                 out.append(two(backend, a, b, lo, lo + 1, False))
             out.append(two(backend, a, b, k, 1 << 30, False))          # every later yield point, and "B after A"
+    # thread life cycle: first FFT-using thread ends (thread_local destructors run), another thread evaluates, ends; leak check on
+    for backend, a, b in (('spqlios', 0, 2), ('nayuki', 0, 2), ('nayuki', 2, 1)) + ((('spqlios', 2, 0), ('nayuki', 1, 0)) if tier == 'thorough' else ()):
+        q = two(backend, a, b, 0, 1, False, tag='.exit', leak=True)
+        q.entry = 'h_thread_exit'
+        q.key = q.key.replace('h_two_threads', 'h_thread_exit').replace(',site=0]', ']')
+        q.yield_in = None
+        out.append(q)
+    # the same life cycle with the REAL nayuki kernel (portable C model): the tables a thread uses must be alive (pointer checks + leak check)
+    for a, b in ((0, 2), (2, 1)):
+        q = two('nayuki', a, b, 0, 1, False, defs={'NOEQ': 1}, tag='.exit.realkernel', leak=True, fp_uf=True)
+        q.entry = 'h_thread_exit'
+        q.key = q.key.replace('h_two_threads', 'h_thread_exit').replace(',site=0]', ']')
+        q.yield_in = None
+        q.stubs = {}
+        out.append(q)
+    q = two('nayuki', 0, 2, 0, 1, False, defs={'CANARY': 1}, tag='.exit.canary', expect='fail', witness=False)
+    q.entry = 'h_thread_exit'
+    q.key = q.key.replace('h_two_threads', 'h_thread_exit').replace(',site=0]', ']')
+    q.yield_in = None
+    out.append(q)
     out.append(two('spqlios', 0, 1, 1, 2, False, defs={'CANARY': 1}, tag='.canary', expect='fail', witness=False))
     out.append(Query('C06.canary.h_history_independent.spqlios', 'FFTP.cpp', 'h_history_independent', {'PN': 16, 'PROC': 1, 'XFORM': 2, 'CANARY': 1}, libs=SPQLIOS,
                      stubs={'fft': 'stub_fft', 'ifft': 'stub_ifft'}, unwind=140, backends=SAT, cap=900, cflags=['-I' + FFTDIR + '/spqlios'], expect='fail', witness=False))
